@@ -56,7 +56,7 @@ def run_check(pid, prop, tier, seed):
     cov["checker_cmd"] = "make -C coq Properties/%s.vo (coqc 8.16.1, full .vo build) + Print Assumptions + vernacular grep" % pid
     cov["trusted_base"] = TRUSTED_BASE + getattr(prop, "EXTRA_TRUST", [])
     # ---- 2. builds
-    okh, outh = C.build_harness(cl03=getattr(prop, "CL03", False))
+    okh, outh = C.build_harness(cl03=True)
     if not okh:
         return finish(pid, ev, t0, fatal="harness/zkryptium does not build from /repo's working tree:\n" + outh[-1500:])
     okm, outm = C.build_model()
